@@ -23,8 +23,8 @@ use aranya_crypto::{
     DeviceId, Random,
 };
 use aranya_fast_channels::{
-    memory::State, AfcState, AranyaState, Client, Directed, Error, FixedBuf, HeaderError,
-    LocalChannelId, MsgType, Version,
+    memory::State, AfcState, AranyaState, Client, Directed, Error, FixedBuf, Header, HeaderError,
+    LocalChannelId, Message, MsgType, Payload, Version,
 };
 use vrt::{json, Args, Value, J};
 
@@ -274,7 +274,7 @@ fn one(seed: u64, i: usize, b: &Value) -> Value {
         // -- the property's predicate
         match &oc {
             Outcome::Panic(p) => {
-                let key = if pres.len() >= HDR && pres.len() < OVERHEAD && iface != "open" {
+                let key = if pres.len() >= HDR && pres.len() < OVERHEAD && iface.starts_with("inplace") {
                     "C39:open_in_place-panic-short"
                 } else {
                     "C39:open-panic"
@@ -283,7 +283,8 @@ fn one(seed: u64, i: usize, b: &Value) -> Value {
             }
             Outcome::Ok { pt, label, seq, out: buf } => {
                 // which sealed message is this byte string? (authentic iff one of them, same context)
-                let auth = w.msgs.iter().position(|x| x.wire == pres);
+                let frame_bad = iface == "framed" && dst != "ok";
+                let auth = w.msgs.iter().position(|x| x.wire == pres).filter(|_| !frame_bad);
                 let got = json!({"ok": true, "pt": hex(&pt[..pt.len().min(48)]), "seq": seq});
                 match auth {
                     Some(x) if opener == "same" => {
@@ -314,7 +315,8 @@ fn one(seed: u64, i: usize, b: &Value) -> Value {
             }
             Outcome::Err { class, text, out: buf } => {
                 let got = json!({"ok": false, "class": class, "err": text});
-                let auth = w.msgs.iter().position(|x| x.wire == pres);
+                let frame_bad = iface == "framed" && dst != "ok";
+                let auth = w.msgs.iter().position(|x| x.wire == pres).filter(|_| !frame_bad);
                 let small = iface == "open" && dst == "minus" && ctlen.is_some_and(|c| c > 0);
                 if auth.is_some() && opener == "same" && !small {
                     return fail(i, round, "C39:authentic-rejected", &format!("an authentic message was rejected: {text}"), obs(got));
@@ -363,6 +365,34 @@ fn do_open(
             match vrt::catch_any(|| client.open(octx, &mut buf, pres)) {
                 Ok(Ok((label, seq))) => Outcome::Ok { pt: buf[..base.min(dlen)].to_vec(), label, seq: seq.to_u64(), out: buf },
                 Ok(Err(e)) => Outcome::Err { class: err_class(&e), text: e.to_string(), out: buf },
+                Err(p) => Outcome::Panic(p),
+            }
+        }
+        "framed" => {
+            // frame = Header{V1, Data} || message, as an application sends it
+            let mut frame = vec![0u8; Header::PACKED_SIZE];
+            Header { version: Version::V1, msg_type: MsgType::Data }
+                .encode((&mut frame[..]).try_into().expect("header size"))
+                .unwrap_or_else(|e| vrt::die(&format!("Header::encode: {e}")));
+            frame.extend_from_slice(pres);
+            match dst {
+                "ok" => {}
+                "version" => frame[0] ^= 0x01,
+                "type_control" => frame[2..4].copy_from_slice(&2u16.to_le_bytes()),
+                "type_invalid" => frame[2..4].copy_from_slice(&7u16.to_le_bytes()),
+                "short" => frame.truncate(3),
+                d => vrt::die(&format!("unknown frame op {d}")),
+            }
+            let base = ctlen.unwrap_or(0);
+            let mut buf = vec![SENTINEL; base];
+            let r = vrt::catch_any(|| match Message::try_parse(&frame) {
+                Err(e) => Err(("header", e.to_string())),
+                Ok(Message { payload: Payload::Control(_), .. }) => Err(("header", "control message: not opened".to_string())),
+                Ok(Message { payload: Payload::Data(p), .. }) => client.open(octx, &mut buf, p).map_err(|e| (err_class(&e), e.to_string())),
+            });
+            match r {
+                Ok(Ok((label, seq))) => Outcome::Ok { pt: buf.clone(), label, seq: seq.to_u64(), out: buf },
+                Ok(Err((class, text))) => Outcome::Err { class, text, out: buf },
                 Err(p) => Outcome::Panic(p),
             }
         }
